@@ -9,7 +9,7 @@
    created by the copy or afterwards cannot change the source.
    PARTIAL: the in-place assignment r2 <- r1 (copy_var_data, which writes field by field into the existing record) is
    compared with the implementation on generated record types through every copy channel, not proved. *)
-From PE2 Require Import Heap Eval Lemmas_Copy Lemmas_DeepCopy Lemmas_HeapInv.
+From PE2 Require Import Heap Eval Lemmas_Copy Lemmas_DeepCopy Lemmas_HeapInv Run Lemmas_ConstLogic Lemmas_ConstThm.
 Local Open Scope N_scope.
 
 Theorem C07_copy_allocates_fresh_context : forall f tn c s p s',
@@ -67,3 +67,11 @@ Example C07_example_copy :
   | _ => false
   end = true.
 Proof. vm_compute. reflexivity. Qed.
+
+(* over the whole evaluator: a variable that holds a record value refers to a record's own private context, and its declared type
+   is the record type of that name (heap invariant of the program logic, kept by every block) *)
+Theorem C07_record_values_own_a_record_context : forall ped repl lim fuel bl c s id cl tn rc, Inv s ->
+  nm_get id (s_cells (snd (run_block ped repl lim fuel bl c s))) = Some cl -> c_val cl = PRec tn rc ->
+  rec_ctx (snd (run_block ped repl lim fuel bl c s)) rc /\ dk (c_type cl) = KRec /\ dname (c_type cl) = Some tn.
+Proof. exact record_values_own_a_record_context. Qed.
+Print Assumptions C07_record_values_own_a_record_context.
